@@ -1,7 +1,7 @@
 """Property -> rule list, with the text that goes into the evidence."""
 import importlib
 
-RULE_MODULES = ["su"]
+RULE_MODULES = ["su", "w"]
 
 COMMON_ASSUME = [
     "clang 14's parse, constant evaluation and CFG of each unit are faithful to the C semantics",
@@ -19,6 +19,16 @@ def all_rules():
 
 
 PROPS = {
+    "C01": {
+        "rules": ["W1", "W2", "W3", "W7"],
+        "explanation": "wip",
+        "assumptions": COMMON_ASSUME,
+    },
+    "C03": {
+        "rules": ["W3", "W4", "W5", "W6"],
+        "explanation": "wip",
+        "assumptions": COMMON_ASSUME,
+    },
     "C04": {
         "rules": ["U1", "U2", "U3", "U4", "S1", "S2", "S4"],
         "explanation": (
